@@ -393,6 +393,12 @@ class World(BaseWorld):
                     "Ket": lambda: G.Ket(0, 1), "Bra": lambda: G.Bra(1), "Measure": lambda: C.Measure(),
                     "Discard": lambda: C.Discard(), "SWAP": lambda: G.SWAP,
                     "CRz": lambda: G.CRz(spec.get("phase", 0.25)),
+                    "Measure_nd": lambda: C.Measure(1, destructive=False),
+                    "Measure_ob": lambda: C.Measure(1, destructive=False, override_bits=True),
+                    "Measure2": lambda: C.Measure(2), "Encode": lambda: C.Encode(),
+                    "Encode_nc": lambda: C.Encode(1, constructive=False),
+                    "MixedState": lambda: C.MixedState(), "MixedBit": lambda: C.MixedState(C.bit),
+                    "DiscardBit": lambda: C.Discard(C.bit),
                     "Rx_sym": lambda: G.Rx(__import__("sympy").Symbol("phi")),
                     "CRz_sym": lambda: G.CRz(2 * __import__("sympy").Symbol("phi"))}[which]()
         raise HarnessError("no special values for " + family)
@@ -919,7 +925,7 @@ class Driver:
             vals.append({"kind": "id", "ty": self.ty(0, 2)})
         else:
             vals.append({"kind": "id", "ty": gen.choice("xyz")})
-        for _ in range(gen.randint(0, 3)):
+        for _ in range(gen.randint(0, 3) + (2 if family == "circuit" else 0)):
             sp = self.special()
             if sp:
                 vals.append(sp)
@@ -947,7 +953,9 @@ class Driver:
                     "ty": atoms("rigid", gen, gen.randint(1, 3)), "sym": gen.random() < 0.6}
         if family == "circuit":
             return {"kind": "special", "which": gen.choice(["H", "CX", "Rx", "Ket", "Bra", "Measure", "Discard",
-                                                            "SWAP", "CRz", "Rx_sym", "CRz_sym"]), "phase": gen.choice([0.25, 0.5])}
+                                                            "SWAP", "CRz", "Rx_sym", "CRz_sym", "Measure", "Measure_nd", "Measure_ob",
+                                                            "Measure2", "Encode", "Encode_nc", "MixedState", "MixedBit",
+                                                            "DiscardBit"]), "phase": gen.choice([0.25, 0.5])}
         return None
 
     def next_op(self, world):
